@@ -1601,6 +1601,12 @@ impl<'a> World<'a> {
             }
         }
         let cancelled = self.ops[i].cancel_step.is_some();
+        if let Some(h) = self.ops[i].handed {
+            // the completion came after the handover: it had to wake the task, not the probe
+            if self.ops[i].ids.iter().any(|id| self.ids[id].finals.first().is_some_and(|f| *f > h)) {
+                self.reach("handed_over_task_woken_by_completion");
+            }
+        }
         let note;
         match out {
             Outcome::Failed(e) => {
@@ -1832,6 +1838,28 @@ impl<'a> World<'a> {
         if readers.len() >= 2 {
             self.reach("two_readers_one_descriptor_delivered");
         }
+        // readers on dup()ed descriptors of one stream: this one was already pending when an
+        // EARLIER chunk arrived that another reader took (it was woken for nothing, or not at
+        // all), and it was served by a later chunk
+        let my_submit = self.ops[i].ids.iter().filter_map(|id| self.ids[id].submit).min();
+        let stamps = &self.write_stamps[res as usize];
+        let my_chunk = stamps.iter().rev().find(|(off, _)| *off <= pos).map(|x| x.1);
+        let served_late = readers.iter().any(|&j| {
+            let oj = &self.ops[j];
+            if j == i || oj.fd_id == self.ops[i].fd_id {
+                return false;
+            }
+            let Some((pj, _)) = oj.piece else { return false };
+            let chunk_j = stamps.iter().rev().find(|(off, _)| *off <= pj).map(|x| x.1);
+            let fin_j = oj.ids.iter().filter_map(|id| self.ids[id].finals.first().copied()).min();
+            match (my_submit, chunk_j, fin_j, my_chunk) {
+                (Some(ms), Some(cj), Some(fj), Some(mc)) => pj < pos && ms < cj && fj < mc,
+                _ => false,
+            }
+        });
+        if served_late {
+            self.reach("dup_descriptor_reader_served_after_other_reader_took_first_chunk");
+        }
     }
 
     // --------------------------------------------------------------------------------------
@@ -1875,7 +1903,7 @@ impl<'a> World<'a> {
                 break;
             }
             for i in pend {
-                let n = self.poll_holder(i);
+                let n = self.do_poll(i);
                 self.obs.push(format!("epilogue poll({i}) -> {n}"));
             }
         }
@@ -1918,6 +1946,11 @@ impl<'a> World<'a> {
                 for b in 0..self.ops.len() {
                     let (oa, ob) = (&self.ops[a], &self.ops[b]);
                     if a == b || oa.spec.res != ob.spec.res || oa.spec.kind.class() != Class::In || ob.spec.kind.class() != Class::In {
+                        continue;
+                    }
+                    // one queue per DESCRIPTOR: readers on dup()ed descriptors of one stream are
+                    // in different queues, and which of them a readiness event serves is the OS's
+                    if oa.fd_id != ob.fd_id {
                         continue;
                     }
                     let (Some((pa, _)), Some((pb, _))) = (oa.piece, ob.piece) else { continue };
@@ -2112,7 +2145,7 @@ impl<'a> World<'a> {
                 }
                 let has_fd = !matches!(o.spec.kind, Kind::Job);
                 if has_fd {
-                    for c in fd_closes.get(&self.ress[o.spec.res as usize].fd_id).into_iter().flatten() {
+                    for c in fd_closes.get(&o.fd_id).into_iter().flatten() {
                         releases.push(("descriptor closed", *c));
                     }
                 }
@@ -2227,6 +2260,19 @@ impl<'a> World<'a> {
                     oracle: "lifetime",
                     class: if nc == 0 { "descriptor-leak".into() } else { "descriptor-double-close".into() },
                     msg: format!("descriptor handle {} was closed {nc} times by the end of the execution", r.fd_id),
+                });
+            }
+        }
+        for (i, o) in self.ops.iter().enumerate() {
+            if !o.spec.dup {
+                continue;
+            }
+            let nc = fd_closes.get(&o.fd_id).map(|v| v.len()).unwrap_or(0);
+            if nc != 1 && !(nc == 0 && driver_leaked) {
+                fails.push(Fail {
+                    oracle: "lifetime",
+                    class: if nc == 0 { "descriptor-leak".into() } else { "descriptor-double-close".into() },
+                    msg: format!("the dup()ed descriptor handle {} of op {i} was closed {nc} times by the end of the execution", o.fd_id),
                 });
             }
         }
